@@ -19,7 +19,8 @@ EXPLANATION = (
     "(0 for stored-raw, uncompressed size otherwise), marker bytes, stream names (base64 digits, pieces, low "
     "digit first), metadata stream names and registration order, params layout, file version; part framing, "
     "integer codec and footer are the C13 rules, run here as well.  A change applied consistently to both sides "
-    "keeps ragc's own round trip green but differs from the table.")
+    "keeps ragc's own round trip green but differs from the table.  "
+    "(NAME) the contig-name delta code of the collection-contigs stream: the C03-NAME clauses, run here as well.")
 UNDECIDED = ("that ZSTD frames, LZ-diff text and tuple bytes are what a C++ reader expects beyond these constants; "
              "that each descriptor's raw_length equals the decoded length (runtime)")
 
